@@ -382,6 +382,10 @@ class C19(Prop):
         template = None
         if rnd.random() < 0.1:
             sc, template = history_template(rnd)
+        if rnd.random() < 0.3:
+            # a variable that is defined and holds None (`nil`), and one that is reset to None now and then
+            root = sc.state_for(sc.root)
+            root.on_entry = ((root.on_entry + '\n') if root.on_entry else '') + 'nil = None'
         enc = ChartEnc(sc)
         names = list(sc.states)
         scenarios = list(template or [])
@@ -457,7 +461,7 @@ class C19(Prop):
                     elif k == 'not_fired':
                         a = [k, rnd.choice(('out', 'o2', 'e', 'n1'))]
                     elif k in ('var_eq', 'var_ne'):
-                        a = [k, rnd.choice(['x', 'y', 'v0', 'seen', 'nosuchvar']), rnd.choice([0, 1, 2, 3, 4, True, False, -1])]
+                        a = [k, rnd.choice(['x', 'y', 'v0', 'seen', 'nosuchvar', 'nil', 'nil']), rnd.choice([0, 1, 2, 3, 4, True, False, -1, None, None])]
                     elif k in ('expr', 'not_expr'):
                         src = rnd.choice(['x > 1', 'x == y', 'x % 2 == 0', 'v0 or v1', "active('%s')" % rnd.choice(names),
                                           'time >= 2', 'x + y < 4', 'nosuchvar > 1'])
